@@ -32,7 +32,7 @@ PROP = "C17"
 ENGINE = "E1"
 LEVEL = "exploration"
 LEVEL_TEXT = ("Seeded histories in which serialise/deserialise through simulated storage (BytesIO, in-memory HDF5) is one more operation applied to whatever object state "
-              "the history produced; observational-equality oracle incl. follow-up behaviour; meta route checked for linearity/norm/zero filling; incompatible "
+              "the history produced (tensors, MPS/MPO, PEPS, environments, two-layer PEPS tensors with charge swaps); observational-equality oracle incl. follow-up behaviour; meta route checked for linearity/norm/zero filling; incompatible "
               "config/meta must be rejected. Disturbed arm: cache faults at every lookup, knob variation, generation skew. Sampling, not proof. No storage faults (the property promises nothing under them).")
 LEVEL_NOTE = "Trusted: numpy.save/load and h5py encoders (real code, in-memory storage); io.BytesIO / h5py core driver stand in for the file system."
 TECHNIQUE = "deterministic simulation: serialisation through simulated storage as an op inside seeded histories (lazy/fused/aliased/empty objects), writer/reader generation skew, cache faults at every lookup of the embedding tables; observational-equality oracle with follow-up operations"
